@@ -9,7 +9,7 @@ S->I: lexer: token types/spans/lines equal to the model's (difference in types/l
 a span off a character boundary, a panic or a hang = VIOLATION); parser: every faulted text, every
 character-boundary prefix of valid texts: outcome Ok | Err, also while formatting the error; Ok(lib) =>
 write and re-read without a crash.  Linear time: token count <= character count (invariant) plus wall-clock
-scaling of the three unbounded loops at n, 2n, 4n, 8n with the deliberately loose bound T(8n) <= 32 T(n) + 50 ms.
+scaling of the three unbounded loops at n, 2n, 4n, 8n with the loose bound T(8n) <= 20 T(n) + 30 ms (n = 6000 / 12000 items, best of three).
 """
 import os, json
 import vlib
@@ -108,7 +108,7 @@ def run(chk):
     chk.cov["prefixes"] = npre
 
     # ---- 3. scaling
-    q = vlib.harness("lef_scaling", [{"id": 0, "n": 4000 if thorough else 1500}], W, timeout_ms=120000)[0]
+    q = vlib.harness("lef_scaling", [{"id": 0, "n": 12000 if thorough else 6000}], W, timeout_ms=120000)[0]
     if q.get("outcome") != "ok":
         chk.violation("reader-" + str(q.get("outcome")) + "-on-long-input", "lef21::parse", {"scaling": True}, q)
     elif q.get("error"):
@@ -117,7 +117,9 @@ def run(chk):
         for row in q["rows"]:
             t = row["times"]
             chk.stage("scaling " + row["kind"], n=row["n"], times_ms=[round(x * 1000, 2) for x in t])
-            if t[3] > 32 * t[0] + 0.05:
+            # linear time gives T(8n) = 8 T(n); a quadratic term dominating at these sizes gives 40..64.  The bound 20 T(n) + 30 ms
+            # leaves a factor 2.5 for noise on the best of three runs
+            if t[3] > 20 * t[0] + 0.03:
                 chk.violation("super-linear-time", "LefParser", {"construct": row["kind"], "n": row["n"]}, {"times_s": t})
     chk.cov["distinct_nontrivial"] = n[0] + len(meta) + npre
     return chk.finish(
